@@ -360,6 +360,17 @@ class Interp:
         if isinstance(cur, list) and op is operator.add:
             cur.extend(val)
             return cur
+        import numpy as _np
+        if isinstance(cur, _np.ndarray) and not deep_sym(val):
+            # a real ndarray (concrete runs): the in-place operator, so that aliases see the store as under CPython
+            ip = {operator.add: operator.iadd, operator.sub: operator.isub, operator.mul: operator.imul, operator.truediv: operator.itruediv,
+                  operator.floordiv: operator.ifloordiv, operator.mod: operator.imod, operator.pow: operator.ipow,
+                  operator.and_: operator.iand, operator.or_: operator.ior, operator.xor: operator.ixor}.get(op)
+            if ip is not None:
+                try:
+                    return ip(cur, val)
+                except Exception as exc:
+                    raise PyRaise(exc)
         if isinstance(cur, SArr):
             new = self.binop(op, cur, val, node)
             if isinstance(new, SArr):
